@@ -254,13 +254,6 @@ theorem lpcFitLoop_range : ∀ (n : Nat) (a : List Int) (idx : Nat) (B : Int), B
         have h2 := le_sabs e
         omega
 
-/-- The operands of the `(opus_int16)` casts of `silk_LPC_fit` (LPC_fit.c:72-81), `QIN-QOUT = 5`:
-    `silk_SAT16( silk_RSHIFT_ROUND( a_QIN[k], 5 ) )` when all 10 iterations were used, otherwise
-    `silk_RSHIFT_ROUND( a_QIN[k], 5 )`. -/
-def lpcFitCasts (a : List Int) : List Int :=
-  let r := lpcFitLoop 5 10 a 0
-  if r.2 then r.1.map fun x => sat16 (rshiftRound x 5) else r.1.map fun x => rshiftRound x 5
-
 /-- The remaining 32-bit values of the final loop of `silk_LPC_fit`: the two steps of each
     `silk_RSHIFT_ROUND( a_QIN[k], 5 )` and, in the clipping branch, the operand of the
     `(opus_int32)` cast in `silk_LSHIFT( (opus_int32)a_QOUT[k], 5 )`. -/
@@ -350,16 +343,6 @@ theorem lpcFit_range (a : List Int) (hne : a ≠ []) (hlen : a.length ≤ 16)
       omega
 
 /-! ### the re-quantisation in the stabilisation loop of silk_NLSF2A -/
-
-/-- The operands of the `(opus_int16)` casts `silk_RSHIFT_ROUND( a32_QA1[k], QA + 1 - 12 )`
-    executed by the stabilisation loop of `silk_NLSF2A` (NLSF2A.c:131-138), all iterations. -/
-def nlsf2aLoopCasts : Nat → Nat → List Int → List Int → List Int
-  | 0, _, _, _ => []
-  | n + 1, i, a32, aQ12 =>
-    if lpcInversePredGain aQ12 = 0 then
-      let a32' := bwexpander32 a32 (65536 - lshift32 2 i)
-      a32'.map (fun a => rshiftRound a 5) ++ nlsf2aLoopCasts n (i + 1) a32' (requantQ12 a32')
-    else []
 
 /-- The 32-bit values of the same loop: `silk_LSHIFT( 2, i )`, the chirp factor, the trace of
     `silk_bwexpander_32`, and the first step of each `silk_RSHIFT_ROUND`. -/
